@@ -306,6 +306,11 @@ def rule_prologue_own(check):
 def run(check):
     check.guarded("PRINT-GATE", rule_print_gate)
     check.guarded("PROLOGUE-OWN", rule_prologue_own)
+    # "an embedded map": what follows `;base64,` must be decodable as that
+    from . import c10 as _c10
+    from ..engine import Only as _Only
+    check.rule("EMBEDDED-MAP", "the payload of the trailer of a modified result is the map in the standard base64 alphabet announced by the data url (a result whose trailer strict decoders reject carries no usable map)")
+    check.guarded("EMBEDDED-MAP", lambda c: _c10.rule_trailer(_Only(c, "TRAILER", "EMBEDDED-MAP", ("/payload", "/single-site"))))
     check.guarded("METRICS-PRESENT", rule_metrics_present)
     from . import c04
 
